@@ -17,6 +17,14 @@ import Anko.Proofs.EvalPoll
 import Anko.Gen.ChanOps
 import Anko.Proofs.EvalCall
 import Anko.Proofs.EvalIntr
+import Anko.Props.Tie.RunFlow
+import Anko.Props.Tie.SingleStmtFlow
+import Anko.Props.Tie.ChanFlow
+import Anko.Props.Tie.StmtFlow
+import Anko.Props.Tie.CallFlow
+import Anko.Props.Tie.BindFlow
+import Anko.Props.Tie.ConvFlow
+import Anko.Props.Tie.CoreFlow
 
 set_option linter.unusedSectionVars false
 set_option linter.unusedSimpArgs false
@@ -246,5 +254,28 @@ theorem blocking_ops_watch_ctx :
     Gen.ChanOps.selects.all (·.2) = true ∧ 4 ≤ Gen.ChanOps.selects.length ∧
     (∀ f ∈ ["runSingleStmt", "runLoopStmt", "runForSliceStmt", "runForMapStmt", "runCForStmt", "invokeNilCoalescingOpExpr"],
       f ∈ Gen.ChanOps.polls) := by decide
+
+/-! ### Shared source ties
+
+The code this property is anchored in is also written down, leaf statement by leaf statement, by the tables below (each decided once in
+Props/Tie, `decide +kernel`, against the table regenerated from /repo on this run). A change of that code breaks the tie by name here too, and the check of
+this property then searches for a failing input - so a change that breaks this property through code whose primary table belongs to another
+property is not overlooked. -/
+/-- the entry points, recoverFunc, newError, type and value construction -/
+theorem source_tie_RunFlow : Gen.RunFlow.leaves = Tables.runFlow := Tie.runFlow
+/-- the statement dispatcher, return, defer, deferred calls -/
+theorem source_tie_SingleStmtFlow : Gen.SingleStmtFlow.leaves = Tables.singleStmtFlow := Tie.singleStmtFlow
+/-- the channel forms -/
+theorem source_tie_ChanFlow : Gen.ChanFlow.leaves = Tables.chanFlow := Tie.chanFlow
+/-- the branch, loop, try and defer functions (vmStmt.go) -/
+theorem source_tie_StmtFlow : Gen.StmtFlow.leaves = Tables.stmtFlow := Tie.stmtFlow
+/-- the call machinery (vmExprFunction.go) -/
+theorem source_tie_CallFlow : Gen.CallFlow.leaves = Tables.callFlow := Tie.callFlow
+/-- function literals, module, var and assignment statements -/
+theorem source_tie_BindFlow : Gen.BindFlow.leaves = Tables.bindFlow := Tie.bindFlow
+/-- the conversion at the Go boundary (vmConvertToX.go) -/
+theorem source_tie_ConvFlow : Gen.ConvFlow.leaves = Tables.convFlow := Tie.convFlow
+/-- the builtins (core/*.go) -/
+theorem source_tie_CoreFlow : Gen.CoreFlow.leaves = Tables.coreFlow := Tie.coreFlow
 
 end Anko.C02
